@@ -415,9 +415,87 @@ def symint(e):
     return SymInt(e)
 
 
+# ---------------------------------------------------------------------- floats (rational model)
+class SymFloat:
+    """Result of float(<symbolic string>).  kind: 'fin' | 'inf' | 'ninf' | 'nan' (always concrete: the
+    parser forks on it); e: z3 Real term (exact rational value of the decimal literal) for 'fin'.
+    Binary rounding is NOT modelled: consumers compare through Approx with a tolerance."""
+    __slots__ = ('kind', 'e')
+
+    def __init__(self, kind, e=None):
+        self.kind = kind
+        self.e = e
+
+    def __neg__(self):
+        if self.kind == 'fin':
+            return SymFloat('fin', -self.e)
+        return SymFloat({'inf': 'ninf', 'ninf': 'inf', 'nan': 'nan'}[self.kind])
+
+    def __bool__(self):
+        if self.kind != 'fin':
+            return True
+        return ENG.decide(self.e != 0)
+
+    def __float__(self):
+        raise Unsupported('float(SymFloat) natively')
+
+
+def float_parts(x):
+    """python number | SymFloat -> (kind, exact value as Fraction or z3 Real term)"""
+    import fractions
+    import math
+    if isinstance(x, SymFloat):
+        return x.kind, x.e
+    if isinstance(x, SymInt):
+        return 'fin', z3.ToReal(x.e)
+    if isinstance(x, float):
+        if math.isnan(x):
+            return 'nan', None
+        if math.isinf(x):
+            return ('inf' if x > 0 else 'ninf'), None
+    return 'fin', fractions.Fraction(x)
+
+
+def real_term(v):
+    """Fraction | int | z3 term -> z3 Real term"""
+    import fractions
+    if isinstance(v, z3.ExprRef):
+        return z3.ToReal(v) if z3.is_int(v) else v
+    f = fractions.Fraction(v)
+    return z3.RealVal('%d/%d' % (f.numerator, f.denominator))
+
+
+class Approx:
+    """A numeric outcome that is compared with a tolerance (absolute + relative), because binary
+    floating-point rounding is outside the rational model.  Rendered as a fixed token in JSON: the
+    comparison of a replayed witness with the symbolic outcome then looks at the outcome class only,
+    while agree() compares the value itself - with the independent oracle - in both modes."""
+    __slots__ = ('v', 'abs_tol', 'rel_tol')
+
+    def __init__(self, v, abs_tol, rel_tol=0):
+        self.v = v
+        self.abs_tol = abs_tol
+        self.rel_tol = rel_tol
+
+    def __repr__(self):
+        return 'approx'
+
+    def close_to(self, other):
+        import fractions
+        a, b = self.v, other.v
+        at = fractions.Fraction(self.abs_tol)
+        rt = fractions.Fraction(self.rel_tol)
+        if not isinstance(a, z3.ExprRef) and not isinstance(b, z3.ExprRef):
+            a, b = fractions.Fraction(a), fractions.Fraction(b)
+            return z3.BoolVal(abs(a - b) <= at + rt * abs(b))
+        a, b = real_term(a), real_term(b)
+        tol = real_term(at) + real_term(rt) * z3.If(b >= 0, b, -b)
+        return z3.And(a - b <= tol, b - a <= tol)
+
+
 def is_sym(x):
     from .symstr import SymStr
-    return isinstance(x, (SymStr, SymInt, SymBool))
+    return isinstance(x, (SymStr, SymInt, SymBool, SymFloat))
 
 
 # ---------------------------------------------------------------------- model evaluation
@@ -430,6 +508,12 @@ def concretize(x, model):
         return model.eval(x.e, model_completion=True).as_long()
     if isinstance(x, SymBool):
         return z3.is_true(model.eval(x.e, model_completion=True))
+    if isinstance(x, Approx):
+        if isinstance(x.v, z3.ExprRef):
+            import fractions
+            r = model.eval(x.v, model_completion=True)
+            return Approx(fractions.Fraction(r.numerator_as_long(), r.denominator_as_long()), x.abs_tol, x.rel_tol)
+        return x
     if isinstance(x, tuple):
         return tuple(concretize(y, model) for y in x)
     if isinstance(x, list):
@@ -457,6 +541,10 @@ def deep_eq(a, b):
         return z3.And(cs) if cs else z3.BoolVal(True)
     if isinstance(a, (SymBool, bool)) and isinstance(b, (SymBool, bool)):
         return tobool(a) == tobool(b)
+    if isinstance(a, Approx) or isinstance(b, Approx):
+        if isinstance(a, Approx) and isinstance(b, Approx):
+            return b.close_to(a) if isinstance(a.v, z3.ExprRef) and not isinstance(b.v, z3.ExprRef) else a.close_to(b)
+        return z3.BoolVal(False)
     if isinstance(a, (SymInt, int)) and isinstance(b, (SymInt, int)) \
             and not isinstance(a, bool) and not isinstance(b, bool):
         return z3.BoolVal(a == b) if isinstance(a, int) and isinstance(b, int) else (_ie(a) == _ie(b))
